@@ -91,7 +91,8 @@ func runC16(c *ctx) {
 			for _, lim := range []string{"0", "1", "2", "5", "-1", "1.5"} {
 				c.diffEval("$split(s, c, "+lim+")", in2, "split")
 			}
-			for _, rep := range []string{"", "Z", "c,"} {
+			// a string pattern inserts its replacement verbatim: `$1`, `$0`, `$$` have no special meaning there
+			for _, rep := range []string{"", "Z", "c,", "$1", "$0", "$$", "$25", "a$", "$a", "é$0😀"} {
 				in3 := map[string]interface{}{"s": s, "c": sep, "r": rep}
 				c.diffEval("$replace(s, c, r)", in3, "replace")
 				for _, lim := range []string{"0", "1", "2", "-1"} {
